@@ -43,12 +43,13 @@ struct Subject
 
 struct RunCtx
 {
-  const Plan * plan; Subject * s; ExecResult * res;
+  const Plan * plan; Subject * s; ExecResult * res; Subject * s2 = nullptr;   // s2: the neighbour's own object
 };
 struct TaskCtx
 {
   RunCtx * run; int index; const Task * task; std::vector<Rec> * out; std::vector<uint64_t> * consumed;
   uint64_t lastSeq = 0; uint64_t ops = 0; bool recordAlways = false;
+  double nbrV = 0; bool nbrHasV = false; uint64_t nbrSeq = 0; bool nbrHasSeq = false;   // what the neighbour last did to its own object
 };
 
 std::string gLabels[S_COUNT][O_COUNT];
@@ -72,9 +73,8 @@ void readReport(const rc::DiagnosticReport & r, Rec & rec)
 }
 
 // long runs keep no history: each read is checked on the spot for internal consistency
-void monitorReport(const Plan & p, const Rec & rec, int kind)
+void monitorReport(const Plan & p, const Rec & rec, int kind, const std::string & name = kName)
 {
-  const std::string name = kName;
   bool ok = true; std::string why;
   if (rec.val.empty()) {
     ok = (rec.status == model::STALE && (rec.msg == name + " timeout." || rec.msg.empty())) ||
@@ -101,8 +101,8 @@ void monitorReport(const Plan & p, const Rec & rec, int kind)
 void taskMain(void * arg)
 {
   TaskCtx & tc = *(TaskCtx *)arg;
-  const Plan & p = *tc.run->plan; Subject & s = *tc.run->s;
   const Task & task = *tc.task;
+  const Plan & p = *tc.run->plan; Subject & s = task.role == 3 ? *tc.run->s2 : *tc.run->s;
   const int sc = p.scenario;
   const char * cls = scenarioName(sc);
   const int mkind = sc == S_CHECKUP_EQ ? model::EqualTo : sc == S_CHECKUP_GT ? model::GreaterThan : sc == S_CHECKUP_LT ? model::LowerThan :
@@ -170,6 +170,31 @@ void taskMain(void * arg)
       simrt::opEnd();
       rec.ret = simrt::stamp();
       ++tc.ops;
+      if (task.role == 3) {
+        // the neighbour is the only thread that touches its object: every read must show exactly what it last did
+        auto disturbed = [&](const std::string & what) {
+            simrt::fail("neighbour-object-disturbed", "a second " + std::string(cls) + " object that only one thread uses: " + what +
+              " (something is shared between distinct objects)", "neighbour-object-disturbed|" + std::string(cls));
+          };
+        switch (op.kind) {
+          case O_EVALUATE: tc.nbrV = op.v; tc.nbrHasV = true; break;
+          case O_TIMEOUT: tc.nbrHasV = false; break;
+          case O_GET_REPORT:
+            monitorReport(p, rec, mkind, kNeighbourName);
+            if (tc.nbrHasV && (rec.val.empty() || !(std::fabs(std::strtod(rec.val.c_str(), nullptr) - tc.nbrV) <= 1e-4 * std::max(1.0, std::fabs(tc.nbrV))))) {
+              disturbed("its report shows the value \"" + rec.val + "\" right after it evaluated " + std::to_string(tc.nbrV));
+            }
+            break;
+          case O_CR_GET_REPORT: monitorReport(p, rec, mkind, kNeighbourName); break;
+          case O_STORE: tc.nbrSeq = op.seq; tc.nbrHasSeq = true; break;
+          case O_LOAD: if (!s.flag && tc.nbrHasSeq && rec.outSeq != tc.nbrSeq) {disturbed("load() returned #" + std::to_string(rec.outSeq) + " after store(#" + std::to_string(tc.nbrSeq) + ")");} break;
+          case O_CONSUME:
+            if (tc.nbrHasSeq != rec.has || (rec.has && rec.outSeq != tc.nbrSeq)) {disturbed("consume() did not return exactly the value just stored");}
+            tc.nbrHasSeq = false; break;
+          default: break;
+        }
+        continue;
+      }
       if (!p.longRun || tc.recordAlways) {tc.out->push_back(rec); continue;}
       // ---- O(1) monitors of the long runs
       switch (op.kind) {
@@ -209,34 +234,39 @@ ExecResult runScenario(const Plan & p, bool recordTrace)
   res.hist.resize(nTasks); res.consumed.resize(nTasks);
 
   simrt::begin(cfg);
-  Subject * s = new Subject();
-  const std::string name = kName;
-  switch (p.scenario) {
-    // p.a != 0 selects the other constructor: default-constructed variable then store(), optional born with a value
-    case S_SHARED_VAR:
-      if (p.b != 0) {s->flag.reset(new rc::SharedVariable<bool>(false)); break;}
-      if (p.a != 0) {s->var.reset(new rc::SharedVariable<Blob>()); s->var->store(Blob::make(0));} else {s->var.reset(new rc::SharedVariable<Blob>(Blob::make(0)));}
-      break;
-    case S_SHARED_OPT:
-      if (p.a != 0) {s->opt.reset(new rc::SharedOptionalVariable<Blob>(Blob::make(kInitialOptionalSeq)));} else {s->opt.reset(new rc::SharedOptionalVariable<Blob>());}
-      break;
-    case S_ONLINE_AVG: s->avg.reset(new rc::OnlineAverage(1.0, (size_t)p.W)); break;
-    case S_ONLINE_VAR: s->variance = new rc::OnlineVariance(1.0, (size_t)p.W); s->avg.reset(s->variance); break;
-    case S_CHECKUP_EQ: s->chk.reset(new rc::CheckupEqualTo<double>(name, p.a, p.b)); break;
-    case S_CHECKUP_GT: s->chk.reset(new rc::CheckupGreaterThan<double>(name, p.a, p.b)); break;
-    case S_CHECKUP_LT: s->chk.reset(new rc::CheckupLowerThan<double>(name, p.a, p.b)); break;
-    case S_RELIABILITY: s->rel.reset(new rc::CheckupReliability(name, p.a, p.b)); break;
-    case S_RATE_MON: s->rm.reset(new rc::RateMonitoring(p.a)); break;
-    case S_CHECKUP_RATE_EQ: s->crEq.reset(new rc::CheckupEqualToRate(name, p.a, p.b)); break;
-    default: s->crGt.reset(new rc::CheckupGreaterThanRate(name, p.a, p.b)); break;
-  }
-  RunCtx run {&p, s, &res};
+  auto build = [&](const std::string & name) {
+      Subject * s = new Subject();
+      switch (p.scenario) {
+        // p.a != 0 selects the other constructor: default-constructed variable then store(), optional born with a value
+        case S_SHARED_VAR:
+          if (p.b != 0) {s->flag.reset(new rc::SharedVariable<bool>(false)); break;}
+          if (p.a != 0) {s->var.reset(new rc::SharedVariable<Blob>()); s->var->store(Blob::make(0));} else {s->var.reset(new rc::SharedVariable<Blob>(Blob::make(0)));}
+          break;
+        case S_SHARED_OPT:
+          if (p.a != 0) {s->opt.reset(new rc::SharedOptionalVariable<Blob>(Blob::make(kInitialOptionalSeq)));} else {s->opt.reset(new rc::SharedOptionalVariable<Blob>());}
+          break;
+        case S_ONLINE_AVG: s->avg.reset(new rc::OnlineAverage(1.0, (size_t)p.W)); break;
+        case S_ONLINE_VAR: s->variance = new rc::OnlineVariance(1.0, (size_t)p.W); s->avg.reset(s->variance); break;
+        case S_CHECKUP_EQ: s->chk.reset(new rc::CheckupEqualTo<double>(name, p.a, p.b)); break;
+        case S_CHECKUP_GT: s->chk.reset(new rc::CheckupGreaterThan<double>(name, p.a, p.b)); break;
+        case S_CHECKUP_LT: s->chk.reset(new rc::CheckupLowerThan<double>(name, p.a, p.b)); break;
+        case S_RELIABILITY: s->rel.reset(new rc::CheckupReliability(name, p.a, p.b)); break;
+        case S_RATE_MON: s->rm.reset(new rc::RateMonitoring(p.a)); break;
+        case S_CHECKUP_RATE_EQ: s->crEq.reset(new rc::CheckupEqualToRate(name, p.a, p.b)); break;
+        default: s->crGt.reset(new rc::CheckupGreaterThanRate(name, p.a, p.b)); break;
+      }
+      return s;
+    };
+  Subject * s = build(kName);
+  bool hasNeighbour = false; for (auto & t : p.tasks) {if (t.role == 3) {hasNeighbour = true;}}
+  Subject * s2 = hasNeighbour ? build(kNeighbourName) : nullptr;
+  RunCtx run {&p, s, &res, s2};
   std::vector<TaskCtx> tcs(nTasks);
-  static const char * roles[] = {"writer", "reader", "watchdog"};
+  static const char * roles[] = {"writer", "reader", "watchdog", "neighbour"};
   for (size_t k = 0; k < nTasks; ++k) {
     tcs[k].run = &run; tcs[k].index = (int)k; tcs[k].task = &p.tasks[k]; tcs[k].out = &res.hist[k]; tcs[k].consumed = &res.consumed[k];
     if (!p.longRun) {res.hist[k].reserve(p.tasks[k].ops.size() * p.tasks[k].repeat + 1);} else {res.consumed[k].reserve(1024);}
-    simrt::spawn(taskMain, &tcs[k], roles[std::min(2, std::max(0, p.tasks[k].role))]);
+    simrt::spawn(taskMain, &tcs[k], roles[std::min(3, std::max(0, p.tasks[k].role))]);
   }
   simrt::runAll();
   // after the join: the main context observes the final state once more. Every call has returned, so whatever
@@ -272,7 +302,7 @@ ExecResult runScenario(const Plan & p, bool recordTrace)
     // the threads were abandoned mid-call: the subject may be half-updated, so it is leaked, not destroyed
     return res;
   }
-  delete s;
+  delete s; delete s2;
   return res;
 }
 
